@@ -106,7 +106,10 @@ func (f *frame) applyContract(ct *Contract, callee *ssa.Function, args []Val, st
 	} else {
 		sig = site.Common().Signature()
 		// interface / functype: first arg is the receiver / function value
-		ptypes = append([]types.Type{site.Common().Value.Type()}, paramTypes(sig)...)
+		ptypes = []types.Type{site.Common().Value.Type()}
+		for i := 0; i < sig.Params().Len(); i++ {
+			ptypes = append(ptypes, sig.Params().At(i).Type())
+		}
 	}
 	names := paramNames(callee, ct, sig)
 	pre := c.baseEnv(callee, ct, st, reach)
@@ -304,6 +307,8 @@ type FuncReport struct {
 // verifyFunction generates the obligations of one function under contract.
 func (e *Engine) verifyFunction(fn *ssa.Function, ct *Contract) *FuncReport {
 	c := newCtx(e, fn.String())
+	c.nonlinear = ct.Nonlinear
+	c.quant = ct.Quant
 	rep := &FuncReport{Func: fn.String(), Blocks: len(fn.Blocks)}
 	for _, b := range fn.Blocks {
 		rep.Instrs += len(b.Instrs)
@@ -418,6 +423,7 @@ func (e *Engine) assumeFacts(c *Ctx, env *specEnv) {
 // verifyLemma: spec-only obligation.
 func (e *Engine) verifyLemma(l *Lemma) *FuncReport {
 	c := newCtx(e, "lemma "+l.Name)
+	c.nonlinear = true
 	rep := &FuncReport{Func: "lemma " + l.Name}
 	alloc0 := c.declare("alloc@0", "Int")
 	st := State{heap: c.entryHeap(), alloc: allocPtr{base: alloc0}}
